@@ -2,6 +2,7 @@
 (independent of the Lean model).  Each oracle returns a list of failures
 {"cls": <known-finding class or None>, "step": i, "what": text}."""
 import copy
+import re
 import json
 
 from compare import norm
@@ -260,6 +261,7 @@ def oracle_c02(case):
     exp_sec = 0      # the @join section the player is in, tracked independently of the engine
     own_used = set()  # one-time choices taken, as (passage they were shown in : text : target) — kept by the oracle itself
     own_past = []
+    own_slots = []    # the oracle's record at each successful save
     for i, op, resp, st, pre_hook in states:
         name = op["op"]
         if own_used is None:
@@ -273,13 +275,22 @@ def oracle_c02(case):
                 own_used.add((prev["out"]["pid"], ch0["text"], ch0["target"], ch0.get("section", 0)))
         elif name == "undo" and resp.get("ret") is True:
             own_used = own_past.pop() if own_past else None
-        if name in ("redo", "load", "fresh_load", "load_doc", "load_bad", "reset_one_time"):
+        if name == "save" and "doc" in resp:
+            own_slots.append(set(own_used) if own_used is not None else None)
+        if name in ("load", "fresh_load") and not is_raise(resp) and op.get("slot", -1) < len(own_slots) and own_slots[op["slot"]] is not None:
+            # a loaded game has taken exactly the one-time choices that had been taken when it was saved
+            own_used = set(own_slots[op["slot"]])
+            own_past = []
+        elif name in ("redo", "load", "fresh_load", "load_doc", "load_bad", "reset_one_time"):
             # (also when a load raises: loading re-enters the saved passage after the game was replaced, finding C05-F1)
             own_used = None      # beyond this oracle's own bookkeeping from here on (the engine's record is used instead)
         if name in ("init", "goto") and "out" in resp:
             exp_sec = 0
         elif name == "choose" and "out" in resp:
             exp_sec = (exp_sec + 1 if exp_sec is not None else None) if _is_join(prev, op) else 0
+        elif name in ("load", "fresh_load") and not is_raise(resp) and st.get("out") and \
+                not any(c.get("target") == "@join" for c in story["passages"].get(st["cur"], {}).get("choices", [])):
+            exp_sec = 0      # loading re-enters the saved passage; without @join choices it has one section only
         elif name not in READ_OPS and name != "choose":
             exp_sec = None   # undo / redo / load: C04 / C05 territory
         elif name == "choose" and is_raise(resp) and not is_raise(resp, "IndexError"):
@@ -315,11 +326,22 @@ def oracle_c02(case):
             for d_ in resp["out"].get("rdirs", []):
                 if d_.get("type") == "choice":
                     out.append(fail(i, f"a choice written inside a block ({d_.get('target')}) was returned among the render directives instead of being offered"))
+        # choices written inside an @if branch that RAN in this navigation (its own counter statement went up by one) are
+        # on offer when they are repeatable and unconditional - in whichever @join section the block stands
+        if name in ("init", "choose", "goto") and "out" in resp and st.get("out") and st["out"]["pid"] == st["cur"] and not case.get("cycles"):
+            before = prev["vars"] if prev is not st else {}
+            offered_block = [(c["target"], c["args"]) for c in st["out"]["choices"]]
+            for ran, ch_ in _ran_branch_choices(story["passages"].get(st["cur"], {}), before, st["vars"], first=(prev is st)):
+                if ch_.get("sticky", True) and not ch_.get("condition") and (ch_.get("target"), ch_.get("args", "")) not in offered_block:
+                    out.append(fail(i, f"the @if branch counted by {ran} ran in this navigation, but the repeatable unconditional choice "
+                                       f"-> {ch_.get('target')}({ch_.get('args', '')}) written in it is not on offer "
+                                       f"(offered: {[t for t, _ in offered_block]})"))
         # the output of a navigation names the passage the game is in
         if name in ("init", "choose", "goto") and "out" in resp and st.get("out") and resp["out"]["pid"] != st["cur"]:
             out.append(fail(i, f"{name} returned an output for passage {resp['out']['pid']} but the game is in {st['cur']}"))
         # offered choices are exactly the enabled ones (top-level part), whenever a navigation produced them
-        if name in ("init", "choose", "goto") and "out" in resp and st.get("out"):
+        if (name in ("init", "choose", "goto") and "out" in resp and st.get("out")) or \
+                (name in ("load", "fresh_load") and not is_raise(resp) and st.get("out") and exp_sec == 0 and own_used is not None):
             hooks_now = bool(st["hooks"].get("turn_end")) and name == "choose"
             exp = expected_top_choices(story, st, exp_sec, own_used) if exp_sec is not None else None
             got = [(c["target"], c["args"], c["sticky"], c["text"]) for c in st["out"]["choices"] if not c["block"]]
@@ -351,6 +373,33 @@ def oracle_c02(case):
                     out.append(fail(i, f"offered top-level choices {got_cmp} but enabled ones are {exp_cmp}", cls))
         prev = st
     return out
+
+
+_IB = re.compile(r"^(ib_\w+) = \1 \+ 1$")
+
+
+def _ran_branch_choices(passage, before, after, first=False):
+    """(counter, choice) for the choices of @if branches (outside loops) whose counter statement ran exactly once"""
+    found = []
+
+    def walk(toks):
+        for t in toks:
+            if t.get("type") != "conditional":
+                continue
+            for b in t.get("branches", []):
+                cont = b.get("content", [])
+                if any(x.get("type") == "jump" for x in cont):
+                    continue            # the passage is left inside this branch
+                for x in cont:
+                    m = _IB.match(x.get("code", "")) if x.get("type") == "python_statement" else None
+                    if m and isinstance(after.get(m.group(1)), int) and after[m.group(1)] == (before.get(m.group(1), 0) if isinstance(before.get(m.group(1), 0), int) else 0) + 1:
+                        for c in b.get("choices", []):
+                            found.append((m.group(1), c))
+                walk(cont)
+    walk(passage.get("content", []))
+    for c in passage.get("choices", []):
+        walk(c.get("block_content", []))
+    return found
 
 
 def _has_jump(p):
